@@ -17,12 +17,65 @@ package quic
 // up to sequence number limit+3. Every such frame must be accepted.
 
 import (
+	"context"
 	"fmt"
 	"strings"
+	"sync/atomic"
+	"time"
 
+	"github.com/refraction-networking/uquic/internal/handshake"
 	"github.com/refraction-networking/uquic/internal/protocol"
+	"github.com/refraction-networking/uquic/internal/utils"
 	"github.com/refraction-networking/uquic/internal/wire"
+	"github.com/refraction-networking/uquic/qlogwriter"
+	tls "github.com/refraction-networking/utls"
 )
+
+// VerifC12PeerAdvertises makes the in-tree server (the conformant peer of the C12 scenarios)
+// build the transport parameters it ADVERTISES from an edited copy of its Config, while the
+// server connection itself keeps running with the Config it was given. This is the only way
+// to obtain a peer that advertises max_idle_timeout = 0 ("the peer does not limit the idle
+// period", RFC 9000 18.2, equivalent to omitting the parameter): Config.MaxIdleTimeout = 0
+// means "default" to the in-tree server, so no Config makes it send that value.
+//
+// newConnection is a package-level hook of the code under test; a worker process runs one
+// execution at a time, the hook is installed before the server starts and removed by the
+// returned function after both endpoints are closed. used reports how many server
+// connections were created through the hook (harness sanity: exactly one per execution).
+func VerifC12PeerAdvertises(edit func(advertised *Config)) (restore func(), used func() int) {
+	orig := newConnection
+	var calls atomic.Int32
+	newConnection = func(
+		ctx context.Context,
+		ctxCancel context.CancelCauseFunc,
+		conn sendConn,
+		runner connRunner,
+		origDestConnID protocol.ConnectionID,
+		retrySrcConnID *protocol.ConnectionID,
+		clientDestConnID protocol.ConnectionID,
+		destConnID protocol.ConnectionID,
+		srcConnID protocol.ConnectionID,
+		connIDGenerator ConnectionIDGenerator,
+		statelessResetter *statelessResetter,
+		conf *Config,
+		tlsConf *tls.Config,
+		tokenGenerator *handshake.TokenGenerator,
+		clientAddressValidated bool,
+		rtt time.Duration,
+		qlogTrace qlogwriter.Trace,
+		logger utils.Logger,
+		v protocol.Version,
+	) *wrappedConn {
+		calls.Add(1)
+		advertised := conf.Clone()
+		edit(advertised)
+		wc := orig(ctx, ctxCancel, conn, runner, origDestConnID, retrySrcConnID, clientDestConnID, destConnID, srcConnID,
+			connIDGenerator, statelessResetter, advertised, tlsConf, tokenGenerator, clientAddressValidated, rtt, qlogTrace, logger, v)
+		wc.Conn.config = conf
+		return wc
+	}
+	return func() { newConnection = orig }, func() int { return int(calls.Load()) }
+}
 
 type verifC12CIDOp struct {
 	kind byte // 'f' frame, 'h' handshake complete, 'u' use
